@@ -25,14 +25,14 @@ Record iter : Type := mkIter {
   it_todo : list (list N * N);    (* (key, entry id) still to be returned, ascending *)
   it_key : list N;                (* key of the entry returned last *)
   it_started : bool;
-  it_done : bool }.               (* exhausted: the current key is no longer specified here *)
+  it_exh : list N }.              (* the key reported once the iterator is exhausted (see [exhausted_key]) *)
 
 Record istate : Type := mkIS {
   is_gen : N;
   is_entries : list entry;        (* indexed by entry id *)
   is_emap : list N;               (* entry_mapping: handle index -> entry id *)
   is_iters : list (option iter);
-  is_locks : list (list N);       (* iterator roots, with multiplicity *)
+  is_locks : list (list N * N);   (* iterator roots with their reference counts (u32) *)
   is_changed : bool }.
 
 Record rparams : Type := mkRP {    (* v1::ReceiveParams *)
@@ -58,7 +58,7 @@ Record v1ext : Type := mkExt {
   x_entrypoint : list N;
   x_digests : list (list N);              (* oracle: digests returned by the hash functions, in order *)
   x_hashlog : list (N * list N);          (* (kind, data) of every hash call, most recent first *)
-  x_unspec : bool;                        (* behaviour outside the model (exhausted iterator key ...) *)
+  x_unspec : bool;                        (* behaviour outside the model (unused at present) *)
   x_lower : bool }.                       (* tree traversal happened: charged energy is a lower bound *)
 
 Notation H1 := (host v1ext).
@@ -115,13 +115,52 @@ Fixpoint live_with_prefix (p : list N) (es : list entry) (i : N) : list (list N 
 Definition any_live (es : list entry) : bool :=
   existsb (fun e => match e_val e with Some _ => true | None => false end) es.
 (** `check_has_no_prefix` fails: some iterator root is a prefix of the key *)
-Definition locked_key (locks : list (list N)) (key : list N) : bool :=
-  existsb (fun p => is_prefix p key) locks.
+Definition locked_key (locks : list (list N * N)) (key : list N) : bool :=
+  existsb (fun p => is_prefix (fst p) key) locks.
 (** `is_or_has_prefix` *)
-Definition locked_prefix (locks : list (list N)) (key : list N) : bool :=
-  existsb (fun p => is_prefix p key || is_prefix key p) locks.
-Fixpoint remove_one (p : list N) (l : list (list N)) : list (list N) :=
-  match l with [] => [] | x :: t => if list_eqb x p then t else x :: remove_one p t end.
+Definition locked_prefix (locks : list (list N * N)) (key : list N) : bool :=
+  existsb (fun p => is_prefix (fst p) key || is_prefix key (fst p)) locks.
+(** `PrefixesMap::insert`: the reference count is a u32; [None] = TooManyIterators *)
+Fixpoint lock_add (p : list N) (l : list (list N * N)) : option (list (list N * N)) :=
+  match l with
+  | [] => Some [(p, 1)]
+  | (q, c) :: t =>
+      if list_eqb q p then (if c =? U32MAX then None else Some ((q, c + 1) :: t))
+      else match lock_add p t with Some t' => Some ((q, c) :: t') | None => None end
+  end.
+(** `PrefixesMap::delete` *)
+Fixpoint remove_one (p : list N) (l : list (list N * N)) : list (list N * N) :=
+  match l with
+  | [] => []
+  | (q, c) :: t => if list_eqb q p then (if c <=? 1 then t else (q, c - 1) :: t) else (q, c) :: remove_one p t
+  end.
+(** verification hook `verif_set_lock_count` (only for an existing lock) *)
+Fixpoint lock_set (p : list N) (c : N) (l : list (list N * N)) : list (list N * N) :=
+  match l with
+  | [] => []
+  | (q, c0) :: t => if list_eqb q p then (q, c) :: t else (q, c0) :: lock_set p c t
+  end.
+
+(** The key an iterator reports after exhaustion: the walk returns to the node it started at,
+    whose key is the longest common prefix, in 4-bit chunks, of the keys below the iterator root;
+    an odd number of chunks leaves a last byte with a zero low half. *)
+Definition nibbles (k : list N) : list N := flat_map (fun b => [b / 16; b mod 16]) k.
+Fixpoint lcp (a b : list N) : list N :=
+  match a, b with
+  | x :: a', y :: b' => if x =? y then x :: lcp a' b' else []
+  | _, _ => []
+  end.
+Fixpoint pack_nibbles (l : list N) : list N :=
+  match l with
+  | [] => []
+  | [a] => [16 * a]
+  | a :: b :: t => (16 * a + b) :: pack_nibbles t
+  end.
+Definition exhausted_key (todo : list (list N * N)) : list N :=
+  match todo with
+  | [] => []
+  | (k, _) :: t => pack_nibbles (fold_left (fun acc ki => lcp acc (nibbles (fst ki))) t (nibbles k))
+  end.
 
 Definition handle (gen idx : N) : N := gen * W32 + idx.            (* (gen << 32) | idx *)
 Definition split_handle (h : N) : N * N := (u32 (h / W32), h mod W32).
@@ -148,13 +187,14 @@ Definition parse_call_args (data : list N) (max_parameter_size : N) : M1 interru
   ensure (negb (max_parameter_size <? parameter_len)) ;;;
   tick (copy_parameter_cost parameter_len) ;;;
   let start := 18 in
-  let end_ := 18 + parameter_len in
+  end_ <- uadd 18 parameter_len ;;                              (* cursor.offset + parameter_len as usize *)
   ensure (negb (lenN data <? end_)) ;;;
   parameter <- vslice data start end_ ;;
   emit (EvCopy parameter_len) ;;;
-  (* name: u16 length, bytes, validity *)
+  (* name: u16 length; (fix) rejected when >= MAX_FUNC_NAME_SIZE before any byte of it is read *)
   ensure (end_ + 2 <=? lenN data) ;;;
   let name_len := le_val (firstnN 2 (skipnN end_ data)) in
+  ensure (name_len <? 100) ;;;
   ensure (end_ + 2 + name_len <=? lenN data) ;;;
   name <- vslice data (end_ + 2) (end_ + 2 + name_len) ;;
   emit (EvFixed name_len) ;;;
@@ -165,70 +205,85 @@ Definition parse_call_args (data : list N) (max_parameter_size : N) : M1 interru
   ret (mkInt ([1] ++ rev index ++ rev subindex ++ be_bytes 2 parameter_len ++ parameter
                ++ be_bytes 2 name_len ++ name ++ rev amount) true).
 
+(** `&memory[start .. start + k]` followed by `&memory[start + k .. start + k + j]` *)
+Definition two_fields (start k j : N) : M1 (list N * list N) :=
+  e1 <- uadd start k ;;
+  a <- mslice start e1 ;;
+  e2 <- uadd e1 j ;;
+  b <- mslice e1 e2 ;;
+  ret (a, b).
+
 Definition invoke (tag start length : N) : M1 hres :=
   x <- get_x ;;
   let params := x_rp x in
   tick INVOKE_BASE_COST ;;;
   if tag =? 0 then                                              (* transfer *)
     ensure (length =? 40) ;;;
-    ensure_fits (start + length) ;;;
-    to <- mslice start (start + 32) ;;
-    amount <- mslice (start + 32) (start + 40) ;;
+    end_ <- uadd start length ;;
+    ensure_fits end_ ;;;
+    ab <- two_fields start 32 8 ;;
     emit (EvFixed 40) ;;;
-    ret (HInt (mkInt ([0] ++ to ++ rev amount) true))
+    ret (HInt (mkInt ([0] ++ fst ab ++ rev (snd ab)) true))
   else if tag =? 1 then                                         (* call *)
-    ensure_fits (start + length) ;;;
-    data <- mslice start (start + length) ;;
+    end_ <- uadd start length ;;
+    ensure_fits end_ ;;;
+    data <- mslice start end_ ;;
     i <- parse_call_args data (rp_max_parameter_size params) ;;
     ret (HInt i)
   else if (tag =? 2) && rp_queries params then                  (* account balance *)
     ensure (length =? 32) ;;;
-    ensure_fits (start + length) ;;;
-    a <- mslice start (start + 32) ;;
+    end_ <- uadd start length ;;
+    ensure_fits end_ ;;;
+    e <- uadd start 32 ;;
+    a <- mslice start e ;;
     emit (EvFixed 32) ;;;
     ret (HInt (mkInt ([3] ++ a) false))
   else if (tag =? 3) && rp_queries params then                  (* contract balance *)
     ensure (length =? 16) ;;;
-    ensure_fits (start + length) ;;;
-    i <- mslice start (start + 8) ;;
-    s <- mslice (start + 8) (start + 16) ;;
+    end_ <- uadd start length ;;
+    ensure_fits end_ ;;;
+    ab <- two_fields start 8 8 ;;
     emit (EvFixed 16) ;;;
-    ret (HInt (mkInt ([4] ++ rev i ++ rev s) false))
+    ret (HInt (mkInt ([4] ++ rev (fst ab) ++ rev (snd ab)) false))
   else if (tag =? 4) && rp_queries params then                  (* exchange rates *)
     ensure (length =? 0) ;;;
     ret (HInt (mkInt [5] false))
   else if (tag =? 5) && rp_sigchecks params then                (* check account signature *)
     ensure (32 <=? length) ;;;
-    ensure_fits (start + length) ;;;
+    end_ <- uadd start length ;;
+    ensure_fits end_ ;;;
     tick (copy_to_host_cost length) ;;;
-    a <- mslice start (start + 32) ;;
-    payload <- mslice (start + 32) (start + length) ;;
+    e <- uadd start 32 ;;
+    a <- mslice start e ;;
+    payload <- mslice e end_ ;;
     emit (EvCopy (length - 32)) ;;;
     ret (HInt (mkInt ([6] ++ a ++ be_bytes 8 (lenN payload) ++ payload) false))
   else if (tag =? 6) && rp_sigchecks params then                (* account keys *)
     ensure (length =? 32) ;;;
-    ensure_fits (start + length) ;;;
-    a <- mslice start (start + 32) ;;
+    end_ <- uadd start length ;;
+    ensure_fits end_ ;;;
+    e <- uadd start 32 ;;
+    a <- mslice start e ;;
     emit (EvFixed 32) ;;;
     ret (HInt (mkInt ([7] ++ a) false))
   else if (tag =? 7) && rp_inspection params then               (* module reference *)
     ensure (length =? 16) ;;;
-    ensure_fits (start + length) ;;;
-    i <- mslice start (start + 8) ;;
-    s <- mslice (start + 8) (start + 16) ;;
+    end_ <- uadd start length ;;
+    ensure_fits end_ ;;;
+    ab <- two_fields start 8 8 ;;
     emit (EvFixed 16) ;;;
-    ret (HInt (mkInt ([8] ++ rev i ++ rev s) false))
+    ret (HInt (mkInt ([8] ++ rev (fst ab) ++ rev (snd ab)) false))
   else if (tag =? 8) && rp_inspection params then               (* contract name *)
     ensure (length =? 16) ;;;
-    ensure_fits (start + length) ;;;
-    i <- mslice start (start + 8) ;;
-    s <- mslice (start + 8) (start + 16) ;;
+    end_ <- uadd start length ;;
+    ensure_fits end_ ;;;
+    ab <- two_fields start 8 8 ;;
     emit (EvFixed 16) ;;;
-    ret (HInt (mkInt ([9] ++ rev i ++ rev s) false))
+    ret (HInt (mkInt ([9] ++ rev (fst ab) ++ rev (snd ab)) false))
   else trap.
 
 Definition upgrade (module_ref_start : N) : M1 hres :=
-  let module_ref_end := module_ref_start + 32 in
+  module_ref_end <- uadd module_ref_start 32 ;;
   ensure_fits (module_ref_end) ;;;
   r <- mslice module_ref_start module_ref_end ;;
   emit (EvFixed 32) ;;;
@@ -239,7 +294,7 @@ Definition upgrade (module_ref_start : N) : M1 hres :=
 Definition write_return_value (start length offset : N) : M1 (option N) :=
   h <- get_hs ;;
   tick (write_output_cost length) ;;;
-  let end_ := start + length in
+  end_ <- uadd start length ;;
   ensure_fits (end_) ;;;
   bytes <- mslice start end_ ;;
   (* write_return_value_helper *)
@@ -277,7 +332,7 @@ Definition get_parameter_section1 (param_num start length offset : N) : M1 (opti
 
 (** *** state_* wrappers *)
 Definition key_arg (charge_first : bool) (cost : N) (key_start key_len : N) : M1 (list N) :=
-  let key_end := key_start + key_len in
+  key_end <- uadd key_start key_len ;;
   (if charge_first then tick cost ;;; ensure_fits (key_end)
    else ensure_fits (key_end) ;;; tick cost) ;;;
   mslice key_start key_end.
@@ -346,11 +401,15 @@ Definition state_iterator (prefix_start prefix_len : N) : M1 (option N) :=
   match live_with_prefix prefix (is_entries s) 0 with
   | [] => ret (Some U64MAX)                                      (* OK_NONE *)
   | todo =>
-      emit (EvCopy (lenN prefix)) ;;;
-      set_is (mkIS (is_gen s) (is_entries s) (is_emap s)
-                   (is_iters s ++ [Some (mkIter prefix todo prefix false false)])
-                   (prefix :: is_locks s) (is_changed s)) ;;;
-      ret (Some (handle (is_gen s) (lenN (is_iters s))))
+      match lock_add prefix (is_locks s) with
+      | None => ret (Some NEW_ERR)                               (* TooManyIterators *)
+      | Some locks' =>
+          emit (EvCopy (lenN prefix)) ;;;
+          set_is (mkIS (is_gen s) (is_entries s) (is_emap s)
+                       (is_iters s ++ [Some (mkIter prefix todo prefix false (exhausted_key todo))])
+                       locks' (is_changed s)) ;;;
+          ret (Some (handle (is_gen s) (lenN (is_iters s))))
+      end
   end.
 
 Definition handle_iter (s : istate) (h : N) : option (N * option iter) :=
@@ -367,12 +426,12 @@ Definition state_iterator_next (it : N) : M1 (option N) :=
       flag_lower ;;;
       match it_todo i with
       | (k, id) :: rest =>
-          let i' := mkIter (it_root i) rest k true false in
+          let i' := mkIter (it_root i) rest k true (it_exh i) in
           set_is (mkIS (is_gen s) (is_entries s) (is_emap s ++ [id]) (setnthN idx (Some i') (is_iters s))
                        (is_locks s) (is_changed s)) ;;;
           ret (Some (handle (is_gen s) (lenN (is_emap s))))
       | [] =>
-          let i' := mkIter (it_root i) [] (it_key i) true true in
+          let i' := mkIter (it_root i) [] (it_exh i) true (it_exh i) in
           set_is (mkIS (is_gen s) (is_entries s) (is_emap s) (setnthN idx (Some i') (is_iters s))
                        (is_locks s) (is_changed s)) ;;;
           ret (Some U64MAX)                                      (* OK_NONE *)
@@ -387,7 +446,6 @@ Definition state_iterator_delete (it : N) : M1 (option N) :=
   s <- get_is ;;
   match handle_iter s it with
   | Some (idx, Some i) =>
-      (if it_done i then flag_unspec else ret tt) ;;;
       tick (delete_iterator_cost (u32 (lenN (iter_key i)))) ;;;
       set_is (mkIS (is_gen s) (is_entries s) (is_emap s) (setnthN idx None (is_iters s))
                    (remove_one (it_root i) (is_locks s)) (is_changed s)) ;;;
@@ -401,7 +459,6 @@ Definition state_iterator_key_size (it : N) : M1 (option N) :=
   s <- get_is ;;
   match handle_iter s it with
   | Some (_, Some i) =>
-      (if it_done i then flag_unspec else ret tt) ;;;
       ret (Some (u32 (lenN (iter_key i))))
   | _ => ret (Some U32MAX)
   end.
@@ -410,18 +467,18 @@ Definition state_iterator_key_size (it : N) : M1 (option N) :=
 Definition read_into (v : list N) (start dlen offset : N) : M1 (option N) :=
   let offset' := N.min (lenN v) offset in
   let num_copied := N.min (lenN v - offset') dlen in
+  (* offset + num_copied <= v.len(): bounded by the length of an existing vector *)
   src <- vslice v offset' (offset' + num_copied) ;;
   mstore start src ;;; emit (EvCopy num_copied) ;;; ret (Some (u32 num_copied)).
 
 Definition state_iterator_key_read (it start length offset : N) : M1 (option N) :=
   tick (copy_from_host_cost length) ;;;
-  let dest_end := start + length in
+  dest_end <- uadd start length ;;
   ensure_fits (dest_end) ;;;
   _ <- mslice start dest_end ;;
   s <- get_is ;;
   match handle_iter s it with
   | Some (_, Some i) =>
-      (if it_done i then flag_unspec else ret tt) ;;;
       read_into (iter_key i) start length offset
   | _ => ret (Some U32MAX)
   end.
@@ -437,7 +494,7 @@ Definition live_value (s : istate) (h : N) : option (N * entry * list N) :=
 
 Definition state_entry_read (entry_index dest_start length offset : N) : M1 (option N) :=
   tick (read_entry_cost length) ;;;
-  let dest_end := dest_start + length in
+  dest_end <- uadd dest_start length ;;
   ensure_fits (dest_end) ;;;
   _ <- mslice dest_start dest_end ;;
   s <- get_is ;;
@@ -461,7 +518,7 @@ Definition set_value (id : N) (key v : list N) : M1 unit :=
 
 Definition state_entry_write (entry_index source_start length offset : N) : M1 (option N) :=
   tick (write_entry_cost length) ;;;
-  let source_end := source_start + length in
+  source_end <- uadd source_start length ;;
   ensure_fits (source_end) ;;;
   src <- mslice source_start source_end ;;
   s0 <- get_is ;;
@@ -525,7 +582,7 @@ Definition get_receive_entrypoint_size : M1 (option N) :=
 Definition get_receive_entrypoint (start : N) : M1 (option N) :=
   x <- get_x ;;
   let size := u32 (lenN (x_entrypoint x)) in
-  let end_ := start + size in
+  end_ <- uadd start size ;;
   ensure_fits (end_) ;;;
   _ <- mslice start end_ ;;
   mstore start (x_entrypoint x) ;;; emit (EvFixed size) ;;; ret None.
@@ -533,11 +590,11 @@ Definition get_receive_entrypoint (start : N) : M1 (option N) :=
 (** *** cryptographic primitives: argument validation and charging; results are oracles *)
 Definition verify_ed25519_signature (public_key_start signature_start message_start message_len : N)
   : M1 (option N) :=
-  let message_end := message_start + message_len in
+  message_end <- uadd message_start message_len ;;
   ensure_fits (message_end) ;;;
-  let public_key_end := public_key_start + 32 in
+  public_key_end <- uadd public_key_start 32 ;;
   ensure_fits (public_key_end) ;;;
-  let signature_end := signature_start + 64 in
+  signature_end <- uadd signature_start 64 ;;
   ensure_fits (signature_end) ;;;
   tick (verify_ed25519_cost message_len) ;;;
   _ <- mslice signature_start signature_end ;;
@@ -548,11 +605,11 @@ Definition verify_ed25519_signature (public_key_start signature_start message_st
 
 Definition verify_ecdsa_secp256k1_signature (public_key_start signature_start message_start : N)
   : M1 (option N) :=
-  let message_end := message_start + 32 in
+  message_end <- uadd message_start 32 ;;
   ensure_fits (message_end) ;;;
-  let public_key_end := public_key_start + 33 in
+  public_key_end <- uadd public_key_start 33 ;;
   ensure_fits (public_key_end) ;;;
-  let signature_end := signature_start + 64 in
+  signature_end <- uadd signature_start 64 ;;
   ensure_fits (signature_end) ;;;
   tick VERIFY_ECDSA_SECP256K1_COST ;;;
   _ <- mslice signature_start signature_end ;;
@@ -562,9 +619,9 @@ Definition verify_ecdsa_secp256k1_signature (public_key_start signature_start me
   ret (Some 0).
 
 Definition hash_generic (kind : N) (cost : N -> N) (data_start data_len output_start : N) : M1 (option N) :=
-  let data_end := data_start + data_len in
+  data_end <- uadd data_start data_len ;;
   ensure_fits (data_end) ;;;
-  let output_end := output_start + 32 in
+  output_end <- uadd output_start 32 ;;
   ensure_fits (output_end) ;;;
   tick (cost data_len) ;;;
   data <- mslice data_start data_end ;;
@@ -593,6 +650,20 @@ Definition v1_receive_only (f : v1fn) : bool :=
   | V1get_receive_sender | V1get_receive_owner | V1get_receive_entrypoint_size
   | V1get_receive_entrypoint | V1upgrade => true
   | _ => false
+  end.
+
+Definition sig1 (f : v1fn) : list N :=
+  match f with
+  | V1invoke | V1write_output | V1get_policy_section | V1verify_ecdsa_secp256k1_signature
+  | V1hash_sha2_256 | V1hash_sha3_256 | V1hash_keccak_256 => [W32; W32; W32]
+  | V1get_parameter_section | V1verify_ed25519_signature => [W32; W32; W32; W32]
+  | V1log_event | V1state_lookup_entry | V1state_create_entry | V1state_delete_entry
+  | V1state_delete_prefix | V1state_iterate_prefix => [W32; W32]
+  | V1state_iterator_next | V1state_iterator_delete | V1state_iterator_key_size | V1state_entry_size => [W64]
+  | V1state_iterator_key_read | V1state_entry_read | V1state_entry_write => [W64; W32; W32; W32]
+  | V1state_entry_resize => [W64; W32]
+  | V1get_receive_self_balance | V1get_receive_entrypoint_size | V1get_slot_time => []
+  | _ => [W32]
   end.
 
 Definition val (m : M1 (option N)) : M1 hres := v <- m ;; ret (HVal v).
@@ -658,8 +729,11 @@ Definition migrate (updated : bool) (s : istate) : istate :=
   if updated then mkIS (is_gen s + 1) (is_entries s) [] [] (is_locks s) false
   else mkIS (is_gen s) (is_entries s) (is_emap s) (is_iters s) (is_locks s) false.
 
-(** returns the value pushed as the result of the interrupted host call; [Trap] models
-    `ResumeError::TooManyInterrupts` *)
+(** `ResumeError::TooManyInterrupts` is turned into a trap that consumes all energy *)
+Definition too_many_if (b : bool) : M1 unit :=
+  fun s => if b then (mkSt 0 (mem s) (evs s) (hs s), Trap) else (s, Ok tt).
+
+(** returns the value pushed as the result of the interrupted host call *)
 Definition resume (r : response) : M1 N :=
   x0 <- get_x ;;
   set_x (with_is x0 (migrate (resp_updated r) (x_is x0))) ;;;
@@ -672,14 +746,14 @@ Definition resume (r : response) : M1 N :=
       let tag := if updated then 8388608 else 0 in                   (* 1 << 23 *)
       match data with
       | Some d =>
-          ensure (negb (MAX_PARAMS <? len)) ;;;
+          too_many_if (MAX_PARAMS <? len) ;;;
           x1 <- get_x ;;
           set_x (with_params x1 (x_params x1 ++ [d])) ;;;
           ret ((len + tag) * 1099511627776)                          (* (len | tag) << 40 *)
       | None => ret (tag * 1099511627776)
       end
   | RespReject code data _ =>
-      ensure (negb (MAX_PARAMS <? len)) ;;;
+      too_many_if (MAX_PARAMS <? len) ;;;
       set_x (with_params x (x_params x ++ [data])) ;;;
       ret (len * 1099511627776 + code)                               (* (len << 40) | code as u32 *)
   | RespFail n _ => ret (n * W32)
